@@ -365,13 +365,28 @@ class StoreWorld(object):
             out.append((obj_key(o), norm(j), j))
         return out
 
+    STRAY_NAMES = ['.snapshot', 'tmp', 'lost+found', '.ipynb_checkpoints', '0-first', 'zz-last', '.git', 'Backup of identity']
+
+    def stray(self, k, n, where):
+        """The environment puts something into the store directory that no add produced: a directory that is no id directory
+        (with a file that is no .json file in it) inside a type directory - which may not exist yet, i.e. a pre-created, empty
+        skeleton - or at the top.  None of it is STIX content; reads behave as if it were not there."""
+        name = self.STRAY_NAMES[n % len(self.STRAY_NAMES)]
+        e = self.pool[k % len(self.pool)]
+        rel = 'fs/%s/%s/keep.txt' % (e['type'], name) if where != 'root' else 'fs/%s/keep.txt' % name
+        if where == 'skeleton':
+            rel = 'fs/%s/.keep' % e['type']          # the type directory exists, with no id directory in it (yet)
+        self.disk.raw_write(rel, b'not STIX content\n')
+        self.world.probe('stray_entry_in_store_directory')
+        self.world.log(op='stray', rel=rel)
+
     def disk_model(self):
         """(id, mod) -> normalised JSON for every decodable file under the fs root; plus list of undecodable files."""
         files = self.disk.raw_listing()
         out, torn = {}, []
         for rel, data in sorted(files.items()):
-            if not rel.startswith('fs/'):
-                continue
+            if not rel.startswith('fs/') or not rel.endswith('.json'):
+                continue        # (the library writes and reads *.json files only)
             try:
                 j = json.loads(data.decode('utf-8'))
                 if isinstance(j, dict) and j.get('type') == 'bundle':
